@@ -39,6 +39,9 @@ RULE = (
 
 def feature_sig(text: str) -> str:
     feats = []
+    if "forall int " in text:
+        # universal numeric quantifiers are eliminated by instantiating them with finitely many values
+        return "forall-int"
     if " int " in text:
         feats.append("int-quantifier")
     if '="' in text:
